@@ -223,6 +223,7 @@ fn emit_wrapped_loop_choice_body(
 ) -> Result<Value, CompilerError> {
     let mut branch_nodes = Vec::new();
     let mut body_already_emitted = false;
+    let mut wrapped_inline_divert = false;
 
     if let Some(selected_text) = &choice.selected_text {
         let recovered_inline_divert = if choice.body.is_empty() {
@@ -287,11 +288,19 @@ fn emit_wrapped_loop_choice_body(
         branch_nodes.push(Node::Newline);
     }
     if choice.has_start_content && !body_already_emitted {
-        // ends the choice's own line (start text + inner text)
-        branch_nodes.push(Node::Newline);
+        if choice.body_divert_is_inline && matches!(choice.body.as_slice(), [Node::Divert(_)]) {
+            // `* text -> target`: the line goes on in the target, its end comes after the divert
+            branch_nodes.push(Node::Text(" ".to_owned()));
+            branch_nodes.extend(choice.body.clone());
+            branch_nodes.push(Node::Newline);
+            wrapped_inline_divert = true;
+        } else {
+            // ends the choice's own line (start text + inner text)
+            branch_nodes.push(Node::Newline);
+        }
     }
 
-    if !body_already_emitted {
+    if !body_already_emitted && !wrapped_inline_divert {
         branch_nodes.extend(choice.body.clone());
     }
 
